@@ -89,7 +89,8 @@ def static_public_names():
         if "__init__.py" not in filenames or pkg == "eolib":
             continue
         for fn in sorted(filenames):
-            if fn.endswith(".py") and fn not in ("__init__.py", "__about__.py"):
+            # names defined in private modules (_helpers.py) are implementation details, not public names
+            if fn.endswith(".py") and fn not in ("__init__.py", "__about__.py") and not fn.startswith("_"):
                 for n in _public_defs(os.path.join(dirpath, fn)):
                     out.append((pkg, n, pkg + "." + fn[:-3]))
     return out
